@@ -26,7 +26,7 @@ Definition clamp (x lo hi : Z) : Z := if x <? lo then lo else if x >? hi then hi
 (* Error values.  [EBase id] is a comparable leaf (errors.New: pointer identity = id);
    [EWrap tag inner] is a comparable wrapper with an Unwrap method and no Is/As methods
    (fmt.Errorf("...%w", inner): pointer identity = tag; the generators give every node its own
-   tag, so that structural equality coincides with Go's ==);  [EStack inner] is a
+   tag, and a tag determines everything beneath it);  [EStack inner] is a
    xerrors.withStack value: it has an Unwrap method, no Is method, and is NOT comparable
    (it contains a slice), so errors.Is never matches it by ==.  nil is [None]. *)
 Inductive err :=
@@ -41,11 +41,11 @@ Definition unwrap (e : err) : option err :=
 Definition comparable (e : err) : bool :=
   match e with EStack _ => false | _ => true end.
 
-(* == on two comparable error values *)
-Fixpoint err_eqb (a b : err) : bool :=
+(* == on two comparable error values: pointer identity, i.e. equality of ids / tags *)
+Definition err_eqb (a b : err) : bool :=
   match a, b with
   | EBase x, EBase y => x =? y
-  | EWrap s i, EWrap t j => (s =? t) && err_eqb i j
+  | EWrap s _, EWrap t _ => s =? t
   | _, _ => false
   end.
 
